@@ -667,7 +667,9 @@ func runC08(s *kernel.Sim, enumerate bool) {
 		switch {
 		case rec2.Code == 200 && !(onDisk && serves) && !(len(fired) > 0):
 			s.Violate("R5", "accepted-update-not-in-force", "a second update sent during %s was answered 200, but afterwards its flow file on disk=%v and its flow serves=%v (the first update was answered %d)", endpoint, onDisk, serves, code)
-		case rec2.Code != 200 && (onDisk || serves):
+		case rec2.Code != 200 && (onDisk || serves) && !(len(fired) > 1 || faultInRecovery):
+			// (the armed faults may hit the second update as well: with more than one of
+			// them, or one inside a recovery, its roll-back is outside the fault model too)
 			s.Violate("R5", "refused-update-left-traces", "a second update sent during %s was answered %d, but afterwards its flow file on disk=%v and its flow serves=%v", endpoint, rec2.Code, onDisk, serves)
 		}
 	}
